@@ -107,6 +107,9 @@ pub struct SearchRecord {
     /// node count at the most recent clock read of this search
     pub nodes_at_last_read: u64,
     pub max_poll_gap_seen: u64,
+    /// this record continues a call whose deadline had already passed (timer re-armed
+    /// inside the same call): overshoot carried over from the earlier record
+    pub inherited_overshoot: Option<u64>,
 }
 
 #[derive(Debug, Clone, Default)]
@@ -133,6 +136,9 @@ pub struct SimState {
     pub max_reads_per_search: u64,
     /// abort a clock-limited search that enters more nodes than this between two clock reads
     pub max_poll_gap: u64,
+    /// true once the harness / the reader has seen the engine finish the previous call;
+    /// a timer re-armed *within* one call after its deadline passed inherits the overshoot
+    pub call_boundary: bool,
     // input
     pub input: VecDeque<Chunk>,
     pub eof_reads: u64,
@@ -177,6 +183,7 @@ impl SimState {
             max_nodes_after_deadline: u64::MAX,
             max_reads_per_search: 400_000_000,
             max_poll_gap: u64::MAX,
+            call_boundary: true,
             input: VecDeque::new(),
             eof_reads: 0,
             max_eof_reads: 8,
@@ -352,6 +359,7 @@ impl Sim for World {
 
     fn read(&mut self, buf: &mut [u8]) -> std::io::Result<usize> {
         let mut st = self.st.borrow_mut();
+        st.call_boundary = true;
         if st.input.is_empty() {
             if let Some(g) = self.gui.as_mut() {
                 g(&mut st);
@@ -440,7 +448,12 @@ impl Sim for World {
             if kind == seam::NODE_QUIESCENCE {
                 s.qnodes += 1;
             }
-            if let Some((_, n_at)) = s.deadline_passed_at {
+            if let Some(carry) = s.inherited_overshoot {
+                s.nodes_after_deadline = carry + s.nodes;
+                if s.nodes_after_deadline > maxo {
+                    abort = Some(Abort::OvershootCap);
+                }
+            } else if let Some((_, n_at)) = s.deadline_passed_at {
                 s.nodes_after_deadline = s.nodes - n_at;
                 if s.nodes_after_deadline > maxo {
                     abort = Some(Abort::OvershootCap);
@@ -480,10 +493,15 @@ impl Sim for World {
         let mut st = self.st.borrow_mut();
         let ordinal = st.searches.len() as u64;
         let out_line_at_start = st.out_lines.len();
-        if let Some(prev) = st.searches.last() {
-            if prev.deadline_passed_at.is_some() {
-                // counted when the next search starts or at summary time
+        let inherited = match st.searches.last() {
+            Some(prev) if !st.call_boundary && (prev.deadline_passed_at.is_some() || prev.inherited_overshoot.is_some()) => {
+                Some(prev.nodes_after_deadline)
             }
+            _ => None,
+        };
+        st.call_boundary = false;
+        if inherited.is_some() {
+            st.ev("timer_rearmed_after_deadline_within_one_call");
         }
         if limit == Some(Duration::ZERO) {
             st.faults.zero_budget += 1;
@@ -510,6 +528,7 @@ impl Sim for World {
             info_marks: vec![],
             nodes_at_last_read: 0,
             max_poll_gap_seen: 0,
+            inherited_overshoot: inherited,
         });
     }
 
@@ -629,6 +648,7 @@ impl Proc {
 
     /// Runs engine code inside the simulated process and classifies how it ended.
     pub fn run<R>(&self, f: impl FnOnce() -> R) -> (Outcome, Option<R>) {
+        self.st.borrow_mut().call_boundary = true;
         let was_in_sim = IN_SIM.with(|c| c.replace(true));
         LAST_PANIC.with(|p| *p.borrow_mut() = None);
         let r = catch_unwind(AssertUnwindSafe(f));
